@@ -1,8 +1,8 @@
 (* Proofs/C18Commute.v — C18, partial stream invariance: on a routine's block graph, comment ops are
    inert for NormalizeBlocks, sortBlocks and flattenBlocks — deleting every comment op BEFORE these passes
-   gives exactly the comment-stripped output — provided that after NormalizeBlocks' first (merging) pass no
-   block consists of comment ops only.  (That side condition is what witness (A) of Proofs/C18Stream.v
-   violates.)  Graphs are compared through a relation, not by equality: [srel g g'] says g' is g with the
+   gives exactly the comment-stripped output — provided that NormalizeBlocks' second (eliding) pass never
+   visits a block that consists of comment ops only ([normalize_clean], an executable check).  That side
+   condition is what witness (A) of Proofs/C18Stream.v violates.  Graphs are compared through a relation, not by equality: [srel g g'] says g' is g with the
    comment ops removed from every block. *)
 From Coq Require Import List Arith NArith Ascii String Bool Lia.
 From PV Require Import Base.Bytes Base.Sexp AVM.Syntax Src.Expr Comp.Blocks Comp.Lower Comp.Passes Comp.Assemble Comp.Compile Comp.Annotate.
